@@ -419,7 +419,24 @@ fn run() -> i32 {
         let hid = toks[0].to_string();
         let v: Vec<i64> = toks[1..].iter().map(|t| t.parse().unwrap()).collect();
         std::io::stdout().flush().ok();
-        let out = run_child(|| run_history(&hid, &v), Duration::from_secs(30));
+        // generous wall-clock bound: 4 s + 1 s per 20000 deliveries (a delivery takes microseconds)
+        let mut total: i64 = 0;
+        {
+            let mut p = 1 + 5 * (v[0] as usize);
+            while p < v.len() {
+                match v[p] {
+                    1 => p += 4,
+                    5 => {
+                        total += v[p + 2];
+                        p += 3
+                    }
+                    3 => p += 3,
+                    4 => p += 2,
+                    _ => p += 1,
+                }
+            }
+        }
+        let out = run_child(|| run_history(&hid, &v), Duration::from_millis(4000 + (total as u64) / 20));
         println!("{} E {}", hid, out.text());
         std::io::stdout().flush().ok();
     }
